@@ -276,7 +276,11 @@ func main() {
 				tape = nil
 				panicMessage = ""
 				rand.Reader = osReader
+				guards = guards[:0]
 				res = run(func() string { return f(t) })
+				if !guardsIntact() {
+					res += " BEYOND-LEN-CHANGED"
+				}
 			}
 			so := drain(capOut)
 			se := drain(capErr)
